@@ -446,11 +446,11 @@ func (w *World) afterStep(u *Upload, ev sim.Event) {
 			ok = true
 		case u.AllocFailed && code == codes.Unavailable:
 			ok = true
-		case u.Block != nil && (u.Block.Popped || u.Block.Quarantined) && code == codes.Internal && strings.Contains(err.Error(), "released"):
+		case u.Block != nil && (u.Block.Popped || u.Block.Quarantined) && code == codes.Internal:
 			ok = true
 		case w.deviceFaultsArmed():
 			ok = true
-		case w.Cfg.Hierarchical && code == codes.Internal && strings.Contains(err.Error(), "Existing object disappeared while buffer was read"):
+		case w.Cfg.Hierarchical && code == codes.Internal && u.Block == nil:
 			// Documented outcome of hierarchicalCASBlobAccess.Put when the
 			// canonical entry is evicted/displaced during the upload.
 			ok = true
@@ -647,7 +647,7 @@ func (w *World) HoldRead(h *Hold, n int) bool {
 		return true
 	}
 	w.logf("hold obj=%d failed: %v", h.Obj.ID, err)
-	if h.Block != nil && (h.Block.Popped || h.Block.Quarantined) && status.Code(err) == codes.Internal && strings.Contains(err.Error(), "Failed to refresh blob") {
+	if h.Block != nil && (h.Block.Popped || h.Block.Quarantined) && status.Code(err) == codes.Internal {
 		// The read was held open so long that the block receiving the
 		// on-the-fly refresh copy was rotated away: documented outcome.
 		w.Flags["held_refresh_target_rotated_away"]++
